@@ -16,7 +16,7 @@
    every property theorem directly for the weighted loop, which is what the tie needs. *)
 From Coq Require Import List NArith Bool.
 From Engine Require Import Model FactsBasic FactsInv FactsOps FactsClose FactsSound FactsIds FactsTerm FactsFam FactsIdem
-  Run FactsRun FactsEnum ExSemilattice ExEnum ModelW RunW FactsW.
+  Run FactsRun FactsEnum ExSemilattice ExEnum FactsFamCheck ModelW RunW FactsW.
 Import ListNotations.
 Local Open Scope N_scope.
 
@@ -179,6 +179,33 @@ Theorem Tie_case_total_closed : forall P W E is_ctor src A s fuel adv cond r,
       In (func_rule f (length a)) src -> eval_fun (st r) f a = Some e.
 Proof. exact case_total_closedW. Qed.
 Print Assumptions Tie_case_total_closed.
+
+(* ---- the hypotheses about the program, as checked instance obligations (evaluated per translated program) ---- *)
+Theorem Tie_wf_rules_b_sound : forall rules, forallb wf_rule_b rules = true -> wf_rules rules.
+Proof. exact wf_rules_b_sound. Qed.
+Print Assumptions Tie_wf_rules_b_sound.
+
+(* src: the source flat rules (one per emitted family, ages erased; functionality rules as func_rule f n) *)
+Theorem Tie_famok_check_sound : forall src em, famok_check src em = true -> FamOK src em.
+Proof. exact famok_check_sound. Qed.
+Print Assumptions Tie_famok_check_sound.
+
+Theorem Tie_famsound_check_sound : forall src em, famsound_check src em = true -> FamSound src em.
+Proof. exact famsound_check_sound. Qed.
+Print Assumptions Tie_famsound_check_sound.
+
+(* the hand-encoded emitted sub-rules of the semilattice program pass; a family in which an [old] became [all]
+   (the to_semi_naive mutant `Ordering::Less => QueryAge::All`) is rejected by famok_check, a family in which a
+   [new] became [old] by both *)
+Example Tie_ex_famcheck :
+  forallb wf_rule_b (fp_rules semi) = true /\ famok_check semi_src (fp_rules semi) = true /\
+  famsound_check semi_src (fp_rules semi) = true /\
+  famok_check semi_src (R [A le [0; 1] New; A le [1; 2] All] [CRel le [0; 2]] :: tl (tl (tl semi_em))
+                        ++ [R [A meet [0; 1; 2] New; A meet [0; 1; 3] All] [CEq 2 3]; R [T El 0 New] [CRel le [0; 0]]]) = false /\
+  famok_uncovered semi_src (R [A le [0; 1] New; A le [1; 2] All] [CRel le [0; 2]] :: tl (tl (tl semi_em))
+                        ++ [R [A meet [0; 1; 2] New; A meet [0; 1; 3] All] [CEq 2 3]; R [T El 0 New] [CRel le [0; 0]]]) = [2] /\
+  famsound_check semi_src (R [A le [0; 1] Old; A le [1; 2] Old] [CRel le [0; 2]] :: semi_em) = false.
+Proof. vm_compute. repeat split; reflexivity. Qed.
 
 (* ---- non-vacuity: the semilattice program, weights meet = 6, le = 4 ---- *)
 Definition semiW : wtable := [(meet, 6); (le, 4)].
